@@ -633,7 +633,11 @@ def main():
     sys.path.insert(0, repo)
     subpackages = json.loads(sys.argv[4])
     if len(sys.argv) > 5:
-        RANDOM.update(json.loads(sys.argv[5]))
+        opts = json.loads(sys.argv[5])
+        RANDOM.update({k: v for k, v in opts.items() if k in RANDOM})
+        # the environment: third-party modules that cannot be imported (what tests/output/test_missing_jinja2.py does)
+        for name in opts.get("absent", []):
+            sys.modules[name] = None
     if mode == "static":
         out = static_probe(repo, pkg, subpackages)
     else:
